@@ -10,6 +10,7 @@ Conservative by design: if we can't prove it's safe, ask for confirmation.
 from __future__ import annotations
 
 import ast
+import sys
 from pathlib import Path
 from typing import NamedTuple
 
@@ -682,7 +683,41 @@ def analyze_python_source(
                 analyzer.violations.append(
                     Violation(0, 0, "import", f"local module shadows: {root}")
                 )
+        # ... and so would anything else there that is named like a module the
+        # interpreter loads on the script's behalf (re for json, codecs looked
+        # up by name, warnings), in any importable form (.pyc, extension module)
+        shadow = local_shadow(base)
+        if shadow is not None:
+            analyzer.violations.append(
+                Violation(0, 0, "import", f"local module shadows: {shadow}")
+            )
     return analyzer.violations
+
+
+# File name endings `import` accepts in a sys.path directory
+_IMPORTABLE_ENDINGS = (".py", ".pyc", ".so", ".pyd")
+
+
+def local_shadow(base: Path) -> str | None:
+    """Name of an entry of directory `base` that an `import` would load in place
+    of a standard-library (or safe-listed) module, if there is one."""
+    known = getattr(sys, "stdlib_module_names", None)
+    safe_roots = {m.split(".")[0] for m in SAFE_MODULES}
+    try:
+        entries = sorted(base.iterdir())
+    except OSError:
+        return None
+    for entry in entries:
+        name = entry.name.split(".")[0]
+        if not name.isidentifier():
+            continue
+        if known is not None and name not in known and name not in safe_roots:
+            continue
+        if entry.name.endswith(_IMPORTABLE_ENDINGS) or (
+            "." not in entry.name and entry.is_dir()
+        ):
+            return name
+    return None
 
 
 def analyze_python_file(path: Path) -> tuple[bool, str]:
@@ -943,6 +978,7 @@ def classify(ctx: HandlerContext) -> Classification:
             arg == "calendar"
             and not (cwd / "calendar.py").exists()
             and not (cwd / "calendar").is_dir()
+            and local_shadow(cwd) is None
         ):
             return Classification("allow", description=desc)
         return Classification("ask", description=desc)
